@@ -819,6 +819,50 @@ private:"""),
     convex(convexity::yes);"""),
     dict(property="C20", name="histogram-ctor-does-not-sort-thresholds", rule="R-C20-5", file="include/nano/core/histogram.h", tu="src/core/histogram.cpp",
          old="        std::sort(std::begin(m_thresholds), std::end(m_thresholds));\n\n        update(begin, end);", new="        update(begin, end);"),
+    # ---- C16
+    dict(property="C16", name="index0-stride-off-by-one-dimension", rule="R-C16-1", file="include/nano/tensor/dims.h", tu="src/core/sampling.cpp",
+         old="    return index * product<idim + 1>(dims) + get_index0<idim + 1>(dims, indices...);", new="    return index * product<idim>(dims) + get_index0<idim + 1>(dims, indices...);"),
+    dict(property="C16", name="vector-view-extent-is-whole-tensor", rule="R-C16-1", file="include/nano/tensor/tensor.h", tu="src/core/sampling.cpp",
+         old="return map_vector(ptr + offset0(indices...), ::nano::size(::nano::dims0(dims(), indices...)));", new="return map_vector(ptr + offset0(indices...), size());"),
+    dict(property="C16", name="slice-extent-includes-end", rule="R-C16-1", file="include/nano/tensor/tensor.h", tu="src/core/sampling.cpp",
+         old="        dimensions[0]   = end - begin;", new="        dimensions[0]   = end - begin + 1;"),
+    dict(property="C16", name="reshape-inferred-dimension-sign", rule="R-C16-1", file="include/nano/tensor/tensor.h", tu="src/core/sampling.cpp",
+         old="                dim = -size() / ::nano::size(dimensions);", new="                dim = size() / ::nano::size(dimensions);"),
+    dict(property="C16", name="matrix-view-rows-cols-swapped", rule="R-C16-1", file="include/nano/tensor/tensor.h", tu="src/core/sampling.cpp",
+         old="return map_matrix(ptr + offset0(indices...), rows(), cols());", new="return map_matrix(ptr + offset0(indices...), cols(), rows());"),
+    dict(property="C16", name="dims0-drops-wrong-end", rule="R-C16-1", file="include/nano/tensor/dims.h", tu="src/core/sampling.cpp",
+         old="        std::get<idim + trankx - trank>(dimsx) = std::get<idim>(dims);", new="        std::get<idim + trankx - trank>(dimsx) = std::get<idim + trankx - trank>(dims);"),
+    dict(property="C16", name="owning-assignment-keeps-old-dims", rule="R-C16-3", file="include/nano/tensor/storage.h", tu="src/core/sampling.cpp",
+         old="""    tensor_vector_storage_t& operator=(const tensor_marray_storage_t<tscalar, trank>& other)
+    {
+        eigen_vector_t<tscalar> data = map_vector(other.data(), other.size());
+        tbase::_resize(other.dims());""",
+         new="""    tensor_vector_storage_t& operator=(const tensor_marray_storage_t<tscalar, trank>& other)
+    {
+        eigen_vector_t<tscalar> data = map_vector(other.data(), other.size());
+        if (size() != other.size())
+            tbase::_resize(other.dims());"""),
+    dict(property="C16", name="const-map-ctor-default-dims", rule="R-C16-3", file="include/nano/tensor/storage.h", tu="src/core/sampling.cpp",
+         old="""    explicit tensor_carray_storage_t(const tensor_marray_storage_t<tscalar, trank>& other)
+        : tbase(other.dims())
+        , m_data(other.data())""",
+         new="""    explicit tensor_carray_storage_t(const tensor_marray_storage_t<tscalar, trank>& other)
+        : m_data(other.data())"""),
+    dict(property="C16", name="mutable-map-becomes-resizable", rule="R-C16-2", file="include/nano/tensor/storage.h", tu="src/core/sampling.cpp",
+         old="""    void resize(const tdims&) = delete;
+
+    auto data() const { return m_data; }
+
+private:
+    template <class tstorage>
+    void copy(const tstorage& other)""",
+         new="""    void resize(const tdims& dims) { tbase::_resize(dims); }
+
+    auto data() const { return m_data; }
+
+private:
+    template <class tstorage>
+    void copy(const tstorage& other)"""),
     # ---- C09
     dict(property="C09", name="linear-accumulator-sum-drops-gW1", rule="R-C09-2", file="src/linear/accumulator.cpp",
          old="    m_gW1 += other.m_gW1;\n", new=""),
@@ -989,4 +1033,26 @@ BENIGN = [
     dict(property="C20", name="histogram-ctor-sorts-values-only-if-needed", file="include/nano/core/histogram.h", tu="src/core/histogram.cpp",
          old="        std::sort(begin, end);\n        std::sort(std::begin(m_thresholds), std::end(m_thresholds));\n\n        update(begin, end);",
          new="        if (!std::is_sorted(begin, end))\n        {\n            std::sort(begin, end);\n        }\n        std::sort(std::begin(m_thresholds), std::end(m_thresholds));\n\n        update(begin, end);"),
+    dict(property="C16", name="slice-extent-via-std-get", file="include/nano/tensor/tensor.h", tu="src/core/sampling.cpp",
+         old="        dimensions[0]   = end - begin;", new="        std::get<0>(dimensions) = end - begin;"),
+    dict(property="C16", name="index-stride-operands-swapped", file="include/nano/tensor/dims.h", tu="src/core/sampling.cpp",
+         old="    return index * product<idim + 1>(dims) + get_index<idim + 1>(dims, indices...);", new="    return get_index<idim + 1>(dims, indices...) + product<idim + 1>(dims) * index;"),
+    dict(property="C16", name="owning-assignment-resize-after-swap", file="include/nano/tensor/storage.h", tu="src/core/sampling.cpp",
+         old="""    tensor_vector_storage_t& operator=(const tensor_marray_storage_t<tscalar, trank>& other)
+    {
+        eigen_vector_t<tscalar> data = map_vector(other.data(), other.size());
+        tbase::_resize(other.dims());
+        std::swap(data, m_data);""",
+         new="""    tensor_vector_storage_t& operator=(const tensor_marray_storage_t<tscalar, trank>& other)
+    {
+        eigen_vector_t<tscalar> data = map_vector(other.data(), other.size());
+        std::swap(data, m_data);
+        tbase::_resize(other.dims());"""),
+    dict(property="C16", name="owning-ctor-uses-own-size", file="include/nano/tensor/storage.h", tu="src/core/sampling.cpp",
+         old="""    explicit tensor_vector_storage_t(const tensor_marray_storage_t<tscalar, trank>& other)
+        : tbase(other.dims())
+        , m_data(map_vector(other.data(), other.size()))""",
+         new="""    explicit tensor_vector_storage_t(const tensor_marray_storage_t<tscalar, trank>& other)
+        : tbase(other.dims())
+        , m_data(map_vector(other.data(), size()))"""),
 ]
